@@ -337,13 +337,16 @@ def lemma_config_from_opts(ctx):
         bs = p.ret.fields[cf.index("block_size")]
         ctx.lemma(eng, "C01: block_size is usize::MAX iff --no-progress, else the requested block size", p.pc,
                   bs.t == z3.If(vals["no_progress"].t, z3.IntVal((1 << 64) - 1), vals["block_size"].t))
+        # every option-driven property depends on its option reaching the library configuration
+        owner = {"gitignore": "C17", "no_clobber": "C08", "no_perms": "C10", "no_timestamps": "C10", "ownership": "C10", "dereference": "C13",
+                 "no_target_directory": "C02", "fsync": "C18", "reflink": "C15", "backup": "C09"}
         for n in ("gitignore", "no_clobber", "no_perms", "no_timestamps", "ownership", "dereference", "no_target_directory", "fsync"):
             v = p.ret.fields[cf.index(n)]
-            ctx.lemma(eng, "C16: option --%s reaches the copy configuration unchanged" % n.replace("_", "-"), p.pc, v.t == vals[n].t)
+            ctx.lemma(eng, "C16/%s: option --%s reaches the copy configuration unchanged" % (owner[n], n.replace("_", "-")), p.pc, v.t == vals[n].t)
         for n in ("reflink", "backup"):
             v = p.ret.fields[cf.index(n)]
-            ctx.lemma(eng, "C16: option --%s reaches the copy configuration unchanged" % n, p.pc,
+            ctx.lemma(eng, "C16/%s: option --%s reaches the copy configuration unchanged" % (owner[n], n), p.pc,
                       eng.discriminant(p, v).t == eng.discriminant(p, vals[n]).t)
         w = p.ret.fields[cf.index("workers")]
-        ctx.lemma(eng, "C16: the worker count is the requested one (CPU count for 0)", p.pc, z3.Or(w.t == vals["workers"].t, vals["workers"].t == 0))
+        ctx.lemma(eng, "C16/C20/C06: the worker count is the requested one (CPU count for 0)", p.pc, z3.Or(w.t == vals["workers"].t, vals["workers"].t == 0))
     ctx.bounds = "loop-free; all option values"
